@@ -12,8 +12,14 @@ const verifLetters = "acgtnACGTN"
 func verifSeq(n int) (*linear.Seq, []int) {
 	ls := make([]alphabet.Letter, n)
 	code := make([]int, n) // 0..3 base index, 4 = invalid
+	mask := verifParam("symmask") // < 0: every letter symbolic; else only the letters whose bit is set
 	for i := range ls {
-		x := verifInt("s"+string(rune('a'+i)), 0, 9)
+		var x int
+		if mask < 0 || mask&(1<<uint(i)) != 0 {
+			x = verifInt("s"+string(rune('a'+i)), 0, 9)
+		} else {
+			x = (i*7 + i/3 + 2) % 10 // a fixed scrambled sequence over a,c,g,t,n in both cases
+		}
 		ls[i] = alphabet.Letter(verifLetters[x])
 		code[i] = x % 5
 	}
